@@ -24,6 +24,13 @@ def run(ctx):
     ops, imp, mod = ctx.path("locks.ops"), ctx.path("locks.impl"), ctx.path("locks.model")
     rc, out = C.harness(["locks", "--ops", ops, "--impl", imp])
     _, _, oracle = C.parse_stats(out)
+    dead = [l[9:] for l in out.splitlines() if l.startswith("DEADLOCK ")]
+    if dead:
+        # a call that never returns on a single thread: it takes the lock while its own thread holds it
+        C.add_violation(ctx, "self-deadlock:" + dead[0],
+                        (oracle or ["call %s does not return" % dead[0]])[0],
+                        "# C14: the call sequence `%s` of harness/src/locks.rs (traces) does not return within 20 s on a single thread\n# replay: harness locks --ops o --impl i   (prints DEADLOCK %s)\n" % (dead[0], dead[0]))
+        return C.finish(ctx)
     C.driver(["locks"], ops, mod)
     ops_lines = open(ops).read().splitlines()
     model = open(mod).read().splitlines()
